@@ -55,13 +55,34 @@ class N(Plain):
     pass
 
 
+def _probe_queries(comp, entity, world, when):
+    """Queries issued from inside a lifecycle callback must not fail."""
+    sink = getattr(comp, 'sink', None)
+    if sink is None:
+        return
+    try:
+        for klass in (A, X, H):
+            world.get(klass)
+            world.has_component(entity, klass)
+            world.get_component(entity, klass)
+        world.get_components(entity)
+        world.entity_exists(entity)
+        world.entities
+    except Exception as exc:
+        sink.append((comp.label, when, entity, repr(exc)))
+
+
 @desper.event_handler('on_add', 'on_remove', 'ping')
 class H(Plain):
+    sink = None     # list collecting failures of queries made in callbacks
+
     def on_add(self, entity, world):
         self.log.append((self.label, 'on_add', entity, id(world)))
+        _probe_queries(self, entity, world, 'on_add')
 
     def on_remove(self, entity, world):
         self.log.append((self.label, 'on_remove', entity, id(world)))
+        _probe_queries(self, entity, world, 'on_remove')
 
     def ping(self, token):
         self.log.append((self.label, 'ping', token, None))
@@ -69,6 +90,17 @@ class H(Plain):
 
 class HB(Falsy, H):
     pass
+
+
+class HD(H):
+    """on_remove asks for the (deferred) deletion of its own entity."""
+    effects = None
+
+    def on_remove(self, entity, world):
+        super().on_remove(entity, world)
+        existed = bool(world.get_components(entity))
+        world.delete_entity(entity)
+        self.effects.append((entity, existed))
 
 
 @desper.event_handler('ping')
@@ -87,7 +119,7 @@ class OA(Plain):
         self.log.append((self.label, 'on_add', entity, id(world)))
 
 
-TYPES = {c.__name__: c for c in (A, B, X, N, H, HB, P, OA)}
+TYPES = {c.__name__: c for c in (A, B, X, N, H, HB, HD, P, OA)}
 
 
 class RecProc(desper.Processor):
@@ -178,6 +210,8 @@ class WorldDriver:
         ctx.counter = 0
         ctx.comps = []           # every component ever created (kept alive)
         ctx.procs = {}
+        ctx.callback_errors = []
+        ctx.effects = []     # (entity, row existed) of in-callback deletes
         if self.processors:
             for klass in (RecProc, DelProc):
                 proc = klass(ctx.log)
@@ -188,6 +222,9 @@ class WorldDriver:
     def new(self, ctx, type_name):
         ctx.counter += 1
         comp = TYPES[type_name](f'{type_name}{ctx.counter}', ctx.log)
+        if isinstance(comp, H):
+            comp.sink = ctx.callback_errors
+            comp.effects = ctx.effects
         ctx.comps.append(comp)
         return comp
 
@@ -379,7 +416,15 @@ class WorldDriver:
                     ctx.failed_frame = True
                     ctx.hits['bogus_delete_keyerror'] += 1
                     ctx.bogus.clear()
+                    # marks are consumed in no particular order: an entity
+                    # that was legitimately pending is either gone already
+                    # or still pending - decided by observation
+                    for e in sorted(ctx.pending, key=repr):
+                        if not w.get_components(e):
+                            self._drop_row(ctx, e, [])
+                    ctx.ghost.clear()
                     del ctx.log[log_start:]
+                    self._resolve_effects(ctx)
                     return
                 self.fail('P', 'process_raised',
                           f'process() raised {exc!r}', op='process',
@@ -439,6 +484,15 @@ class WorldDriver:
         else:
             raise ValueError(op)
 
+        if ctx.callback_errors:
+            err = ctx.callback_errors[0]
+            del ctx.callback_errors[:]
+            raise Violation('queries_from_callbacks_do_not_fail',
+                            f'{op}: a query issued from {err[0]}.{err[1]}'
+                            f'(entity {err[2]}) raised {err[3]}',
+                            callback=err[1], op=kind)
+        self._resolve_effects(ctx)
+
         if 'L' in self.own:
             self._ledger(ctx, op, events, log_start, was_enabled)
         else:
@@ -452,6 +506,20 @@ class WorldDriver:
             ctx.hits['ghost_id_reused'] += 1
             if not w.entity_exists(e):
                 ctx.pending.add(e)
+
+    @staticmethod
+    def _resolve_effects(ctx):
+        for e, existed in ctx.effects:
+            # delete_entity(e) called from an on_remove callback: the mark
+            # stays if e still owns components after the operation; it went
+            # away with the row if the row was dropped afterwards; asked for
+            # an entity that no longer existed it is a stray mark
+            ctx.hits['delete_from_on_remove'] += 1
+            if e in ctx.rows:
+                ctx.pending.add(e)
+            elif not existed:
+                ctx.bogus.add(e)
+        del ctx.effects[:]
 
     # -- family P: ordering inside one frame -----------------------------
     def _check_frame(self, ctx, log_start, events):
